@@ -31,6 +31,7 @@ op_st = st.one_of(
     st.tuples(st.just('w'), st.integers(9, 600), STEP, st.booleans(), SUB),
     st.tuples(st.just('r'), READER), st.tuples(st.just('r'), READER), st.tuples(st.just('r'), READER),
     st.tuples(st.just('rb'), READER),
+    st.tuples(st.just('r_race'), READER, st.lists(st.integers(9, 120), min_size=1, max_size=3), st.booleans()),     # a read during which the writer appends (and maybe rolls over)
     st.tuples(st.just('tell'), READER),
     st.tuples(st.just('seek'), READER, st.sampled_from(['start', 'end', 'saved', 'saved'])),
     st.tuples(st.just('refresh'), READER),
@@ -90,6 +91,8 @@ def run_case(case):
                     w.read(r, False)
                 elif k == 'rb':
                     w.read(r, True)
+                elif k == 'r_race':
+                    w.read(r, op[3], racing=op[2])
                 elif k == 'tell':
                     w.tell(r)
                 elif k == 'seek':
